@@ -303,6 +303,11 @@ def _obj_writes(st_after, st_before):
         if o is o0:
             continue
         if isinstance(o, Inst):
+            changed = [(f, o.fields.get(f)) for f in set(o.fields) | set(o0.fields) if o.fields.get(f) is not o0.fields.get(f)]
+            if isinstance(o0, Inst) and changed and all(f.startswith("%") for f, _ in changed):
+                # ghost fields (Branch %ialias): the same loop-independent value written by every iteration
+                res.append((oid, [("ghost-fields", changed)]))
+                continue
             raise Unsupported("scalar field write inside a pointwise loop body")
         from . import npmodel
 
@@ -433,6 +438,13 @@ def apply_family(X, run, st, normal_conds, extra_guard=None):
                     st.heap[oid] = CList(items, is_tuple=st.heap[oid].is_tuple)
                     o0 = st.heap[oid]
                     continue
+                if isinstance(key_t, str) and key_t == "ghost-fields":
+                    oo = st.heap[oid]
+                    for f_, x in val:
+                        oo = oo.with_field(f_, x)
+                    st.heap[oid] = oo
+                    o0 = oo
+                    continue
                 if isinstance(key_t, str) and key_t == "scratch":
                     from . import npmodel
 
@@ -549,7 +561,7 @@ def family_finish(X, run, after_normal):
             Xs.set_view(z3.substitute(ref_t, (k, w)), z3.substitute(view_t, (k, w)))
         for oid, ws in _obj_writes(oc.st, run.base):
             for key_t, val in ws:
-                if isinstance(key_t, str) and key_t in ("append", "scratch", "idempotent"):
+                if isinstance(key_t, str) and key_t in ("append", "scratch", "idempotent", "ghost-fields"):
                     continue  # the partially built local list / scratch array is dead after the raise
                 o0 = Xs.heap[oid]
                 if isinstance(o0, CDict):
